@@ -5,6 +5,7 @@ CONSTANTS
   LastChanceAny = {"m", "s", "p"}
   WalkSorted = TRUE
   AssumeUserRange = TRUE
+  QueryTypes = {"lookup", "names", "full", "action"}
   SampleMod = 2
 INVARIANTS Export
 CHECK_DEADLOCK FALSE
